@@ -1005,8 +1005,32 @@ void vw_inflight(const char *fmt, ...)
     vsnprintf(inflight + k, inflight_sz - (size_t)k - 1, fmt, ap);
     va_end(ap);
 }
+/* CPU-time watchdog: a case (or, in c16 mode, a single library call) that burns more process CPU time than the
+ * budget never returns as far as this run is concerned. The handler records where and exits with status 7. */
+#include <signal.h>
+#include <sys/time.h>
+static char wd_what[96] = "case";
+static void wd_handler(int sig)
+{
+    (void)sig;
+    if (inflight) {
+        size_t k = strnlen(inflight, 60);
+        snprintf(inflight + k, 200, " CPU-WATCHDOG %s did not return within its CPU budget", wd_what);
+    }
+    _exit(7);
+}
+void vw_watchdog(const char *what, int cpu_seconds)
+{
+    static bool installed;
+    if (!installed) { struct sigaction sa; memset(&sa, 0, sizeof sa); sa.sa_handler = wd_handler; sigaction(SIGVTALRM, &sa, NULL); installed = true; }
+    snprintf(wd_what, sizeof wd_what, "%s", what);
+    struct itimerval it; memset(&it, 0, sizeof it);
+    it.it_value.tv_sec = cpu_seconds;
+    setitimer(ITIMER_VIRTUAL, &it, NULL);
+}
 void vw_case(uint64_t caseno)
 {
+    vw_watchdog("case", 90);
     cur_case = caseno; cases_done++;
     if (inflight) snprintf(inflight, 64, "case=%llu ", (unsigned long long)caseno);
 }
@@ -1075,6 +1099,7 @@ int vw_finish(void)
 {
     char path[1024];
     vw_unmute_stdout();
+    { struct itimerval it; memset(&it, 0, sizeof it); setitimer(ITIMER_VIRTUAL, &it, NULL); }
     snprintf(path, sizeof path, "%s/hashes-%llu.bin", VA.outdir, (unsigned long long)VA.wid);
     FILE *f = fopen(path, "ab");
     if (f) { for (size_t i = 0; i < hcap; i++) if (hset[i]) fwrite(&hset[i], 8, 1, f); fclose(f); }
